@@ -99,4 +99,4 @@ def run(ctx):
                     if hit:
                         ctx.bad('FLOW-C26a', fn, 'a WAL sequence number is queued as a frame id for enrichment', line=c.line, sink='enrichment_queue', detail='sequence-as-frame-id')
     ctx.floor('FLOW-C26a:fns', n_fns, 2, 'functions that append to the WAL')
-    ctx.floor('FLOW-C26a:sinks', n_sinks, 4, 'frame-id sinks in WAL-appending functions')
+    ctx.floor('FLOW-C26a:sinks', n_sinks, 2, 'frame-id sinks in WAL-appending functions')
